@@ -25,16 +25,34 @@ import (
 )
 
 // CreateChannel creates a channel in the database.
-func (db *DB) CreateChannel(ctx context.Context, ch ...Channel) error {
+func (db *DB) CreateChannel(ctx context.Context, ch ...Channel) (err error) {
 	if db.closed.Load() {
 		return ErrDBClosed
 	}
 	db.mu.Lock()
 	defer db.mu.Unlock()
+	// If a channel in the batch fails to create, remove the channels of this batch that
+	// were already created so that the call is all-or-nothing.
+	created := make([]ChannelKey, 0, len(ch))
+	defer func() {
+		if err == nil {
+			return
+		}
+		for i := len(created) - 1; i >= 0; i-- {
+			if rmErr := db.removeChannel(created[i]); rmErr != nil {
+				err = errors.Combine(err, rmErr)
+				continue
+			}
+			if rmErr := db.fs.Remove(keyToDirName(created[i])); rmErr != nil {
+				err = errors.Combine(err, rmErr)
+			}
+		}
+	}()
 	for _, c := range ch {
-		if err := db.createChannel(ctx, c); err != nil {
+		if err = db.createChannel(ctx, c); err != nil {
 			return err
 		}
+		created = append(created, c.Key)
 	}
 	return nil
 }
